@@ -821,11 +821,14 @@ def rule_fit(ck, rule="FIT", report=True):
         for f in case_split([request, T], Facts([c_cmp("ult", ZERO, n)]), max_cases=16):
             if f.infeasible():
                 continue
-            if not f.nonneg(simplify(request - T, f)):
+            dd = simplify(request - T, f)
+            # a lower bound that is tight up to the rounding to whole storage units (otherwise a too small bound would
+            # make the lemma fail for a block that is in fact large enough)
+            if not (f.nonneg(dd) and f.nonneg(const(sea - 1) - dd)):
                 ok = False
                 break
         if not ok:
-            why.append("request >= %s not provable" % show(T)[:80])
+            why.append("T <= request <= T + %d not provable for %s" % (sea - 1, show(T)[:80]))
             continue
         T1 = simplify(inst(T, const(1), ZERO), Facts())
         S = simplify(inst(T, const(2), ZERO), Facts()) - T1
@@ -877,7 +880,7 @@ def rule_fit(ck, rule="FIT", report=True):
             ok = (d.is_const() and d.c >= 0) or f.nonneg(d)
             results[name] = results.get(name, True) and ok
             if not ok and name not in bad:
-                bad[name] = (d, lhs, rhs)
+                bad[name] = (d, lhs, rhs, f)
     for name in ("next", "last"):
         if name not in results:
             rec.broken("%s %s: no feasible case for the appended element" % (tu.cfg, rule))
@@ -886,10 +889,16 @@ def rule_fit(ck, rule="FIT", report=True):
         if d_l_r is not None and (has_unknown(d_l_r[0]) or fm_imprecise(d_l_r[0]) or _has_join(d_l_r[0])):
             rec.broken("%s %s-%s: undecided: %s" % (tu.cfg, rule, name, show(d_l_r[0])[:200]))
             continue
+        if not results[name]:
+            d, lhs, rhs, fbad = d_l_r
+            from .model import find_model
+            wit = find_model(fbad, d)
+            if wit is None:
+                rec.broken("%s %s-%s: not provable and no witness state found: %s" % (tu.cfg, rule, name, show(d)[:200]))
+                continue
         rec.ob("%s-%s" % (rule, name), results[name], {"config": tu.cfg, "witness": fn, "per_element_budget": show(Se)[:160], "first_element_budget": show(T1e)[:160],
                                                      "extent": show(ext)[:200], "payload": show(payload)})
         if not results[name]:
-            d, lhs, rhs = d_l_r
             rec.finding("%s-%s" % (rule, name), "element-exceeds-budget[%s:%s]" % (tu.pl.name, ck.catkey()),
                         "an appended element with varying payload %s occupies %s bytes (%s) but the constructor budgets only %s for it: "
                         "N elements within the declared payload do not always fit (budget - need = %s)" % (
